@@ -4,16 +4,16 @@ import Aiortc.Lemmas.SctpNoCrashData
 namespace Aiortc.Sctp.V2
 open Aiortc.Gen Aiortc.Sctp.Wire
 set_option linter.unusedSimpArgs false
-variable {U : List Nat} {n : Nat}
+variable {U : List Nat}
 
-theorem packetFor_ok {e : Ep} {c : Chunk} (h : WF U n e) (hc : c.inRange = true) : ∃ d, packetFor e c = .ok d := by
+theorem packetFor_ok {e : Ep} {c : Chunk} (h : WF U e) (hc : c.inRange = true) : ∃ d, packetFor e c = .ok d := by
   obtain ⟨p, hp, hlt⟩ := h.net.rp
   refine ⟨serializePacketRaw e.localPort p e.remoteTag c, ?_⟩
   have := h.net.lp
   have := h.net.rtag
   simp [packetFor, hp, serializePacket, headerInRange, hc, *]
 
-theorem wp_sendChunk {A} {c : Chunk} {Q : Unit → St → Prop} {e : Ep} {l : List Out} (h : WF U n e)
+theorem wp_sendChunk {A} {c : Chunk} {Q : Unit → St → Prop} {e : Ep} {l : List Out} (h : WF U e)
     (hc : c.inRange = true) (hq : ∀ d, Q () (e, l ++ [.tx d])) : wp A (sendChunk c) Q (e, l) := by
   obtain ⟨d, hd⟩ := packetFor_ok h hc
   simp [sendChunk, hd, hq]
@@ -35,7 +35,7 @@ theorem forwardTsn_inRange {cum : Int} {streams : List (Nat × Int)} (hU : U.len
   simp only [Chunk.inRange, hp, List.length_map, Bool.and_eq_true, decide_eq_true_eq, Bool.and_true]
   omega
 
-theorem wp_playTx {A} {evs : List TxEv} {Q : Unit → St → Prop} {e : Ep} {l : List Out} (h : WF U n e)
+theorem wp_playTx {A} {evs : List TxEv} {Q : Unit → St → Prop} {e : Ep} {l : List Out} (h : WF U e)
     (hev : ∀ ev ∈ evs, TxEv.Ok U ev) (hq : ∀ l', Q () (e, l')) : wp A (playTx evs) Q (e, l) := by
   unfold playTx
   rw [wp_bind]
@@ -60,9 +60,9 @@ theorem wp_playTx {A} {evs : List TxEv} {Q : Unit → St → Prop} {e : Ep} {l :
     simpa using this
 
 /-- `_setReadyState`: only the channel object changes. -/
-theorem wp_setReady {A} {i st : Nat} {Q : Unit → St → Prop} {e : Ep} {l : List Out} (h : WF U n e)
+theorem wp_setReady {A} {i st : Nat} {Q : Unit → St → Prop} {e : Ep} {l : List Out} (h : WF U e)
     (hi : i < e.chans.length)
-    (hq : ∀ cs l', WF U n { e with chans := cs } → cs.length = e.chans.length → Q () ({ e with chans := cs }, l')) :
+    (hq : ∀ cs l', WF U { e with chans := cs } → cs.length = e.chans.length → Q () ({ e with chans := cs }, l')) :
     wp A (setReady i st) Q (e, l) := by
   obtain ⟨c, hc⟩ := getElem?_of_lt hi
   have hself := hq e.chans
@@ -81,9 +81,9 @@ theorem wp_setReady {A} {i st : Nat} {Q : Unit → St → Prop} {e : Ep} {l : Li
   · simp only [wp_pure]; exact hself l h rfl
 
 /-- `_addBufferedAmount`: only the channel object changes. -/
-theorem wp_addBuffered {A} {i : Nat} {amount : Int} {Q : Unit → St → Prop} {e : Ep} {l : List Out} (h : WF U n e)
+theorem wp_addBuffered {A} {i : Nat} {amount : Int} {Q : Unit → St → Prop} {e : Ep} {l : List Out} (h : WF U e)
     (hi : i < e.chans.length)
-    (hq : ∀ cs l', WF U n { e with chans := cs } → cs.length = e.chans.length → Q () ({ e with chans := cs }, l')) :
+    (hq : ∀ cs l', WF U { e with chans := cs } → cs.length = e.chans.length → Q () ({ e with chans := cs }, l')) :
     wp A (addBuffered i amount) Q (e, l) := by
   obtain ⟨c, hc⟩ := getElem?_of_lt hi
   unfold addBuffered
@@ -94,12 +94,12 @@ theorem wp_addBuffered {A} {i : Nat} {amount : Int} {Q : Unit → St → Prop} {
   · simp only [wp_pure]; exact hq _ _ hw (by simp)
 
 /-- `_transmit()`: only the send side changes. -/
-theorem wp_transmit {A} {Q : Unit → St → Prop} {e : Ep} {l : List Out} (h : WF U n e)
-    (hq : ∀ tx l', WF U n { e with tx := tx } → Q () ({ e with tx := tx }, l')) : wp A transmit Q (e, l) := by
+theorem wp_transmit {A} {Q : Unit → St → Prop} {e : Ep} {l : List Out} (h : WF U e)
+    (hq : ∀ tx l', WF U { e with tx := tx } → Q () ({ e with tx := tx }, l')) : wp A transmit Q (e, l) := by
   unfold transmit
   obtain ⟨ht, hev⟩ := Tx.transmit_ok e.tx h.tx
   simp only [wp_bind, wp_getE, wp_setE]
-  have hw : WF U n { e with tx := e.tx.transmit.1 } := h.setTx ht
+  have hw : WF U { e with tx := e.tx.transmit.1 } := h.setTx ht
   refine wp_playTx hw hev ?_
   intro l'
   exact hq _ _ hw
@@ -107,12 +107,12 @@ theorem wp_transmit {A} {Q : Unit → St → Prop} {e : Ep} {l : List Out} (h : 
 /-- `_send(...)`: reliable, or partially reliable on a stream of `U`. -/
 theorem wp_sendData {A} {sid ppid : Nat} {data : Bytes} {expiry maxRtx : Option Int} {ordered : Bool}
     {Q : Unit → St → Prop} {e : Ep} {l : List Out}
-    (h : WF U n e) (hs : sid < 65536) (hp : ppid < 4294967296) (hpr : (expiry = none ∧ maxRtx = none) ∨ sid ∈ U)
-    (hq : ∀ tx l', WF U n { e with tx := tx } → Q () ({ e with tx := tx }, l')) :
+    (h : WF U e) (hs : sid < 65536) (hp : ppid < 4294967296) (hpr : (expiry = none ∧ maxRtx = none) ∨ sid ∈ U)
+    (hq : ∀ tx l', WF U { e with tx := tx } → Q () ({ e with tx := tx }, l')) :
     wp A (sendData sid ppid data expiry maxRtx ordered) Q (e, l) := by
   unfold sendData
   simp only [wp_bind, wp_modE]
-  have hw : WF U n { e with tx := e.tx.enqueue sid ppid data expiry maxRtx ordered } :=
+  have hw : WF U { e with tx := e.tx.enqueue sid ppid data expiry maxRtx ordered } :=
     h.setTx (Tx.enqueue_ok _ h.tx _ _ _ _ _ _ hs hp hpr)
   refine wp_transmit hw ?_
   intro tx l' hw'
@@ -123,9 +123,9 @@ theorem ChansOk.subQ {chans dcs q q' rcq} (h : ChansOk U chans dcs q rcq) (hsub 
   ⟨h.dcIdx, h.dcKeys, fun x hx => h.qIdx x (hsub x hx), fun x hx => h.qPR x (hsub x hx),
    fun x hx => h.qPpid x (hsub x hx), h.sid, h.rcq⟩
 
-theorem WF.subQ {e : Ep} (h : WF U n e) {q : List (Nat × Nat × Bytes)} (hsub : ∀ x ∈ q, x ∈ e.dcQueue) :
-    WF U n { e with dcQueue := q } :=
-  ⟨h.net, h.ch.subQ hsub, h.tx, h.rx, h.rcReq, h.rcResp, h.sack, h.room, h.ids, h.cap, h.tm1, h.tm2, h.tasks, h.rcr⟩
+theorem WF.subQ {e : Ep} (h : WF U e) {q : List (Nat × Nat × Bytes)} (hsub : ∀ x ∈ q, x ∈ e.dcQueue) :
+    WF U { e with dcQueue := q } :=
+  ⟨h.net, h.ch.subQ hsub, h.tx, h.rx, h.rcReq, h.rcResp, h.sack, h.ids, h.cap, h.tm1, h.tm2, h.tasks, h.rcr⟩
 
 /-! ## `_data_channel_flush`: picking a stream id -/
 
@@ -180,34 +180,15 @@ theorem keys_pigeon {β} (d : List (Nat × β)) (s k : Nat)
   have := List.Nodup.length_le_of_subset hnd hsub
   simpa using this
 
-theorem pendingCh_pos {chans : List Chan} {i : Nat} {c : Chan} (hc : chans[i]? = some c) (hid : c.id = none) :
-    0 < pendingCh chans :=
-  List.countP_pos_iff.mpr ⟨c, List.mem_of_getElem? hc, by simp [hid]⟩
-
-theorem pendingCh_assign {chans : List Chan} {i : Nat} {c : Chan} (hc : chans[i]? = some c) (hid : c.id = none)
-    (s : Nat) : pendingCh (chans.set i { c with id := some s }) + 1 = pendingCh chans := by
-  have hlt : i < chans.length := by
-    rcases Nat.lt_or_ge i chans.length with h | h
-    · exact h
-    · rw [List.getElem?_eq_none h] at hc; cases hc
-  have hg : chans[i] = c := by
-    rw [List.getElem?_eq_getElem hlt] at hc; exact Option.some.inj hc
-  have hpos := pendingCh_pos hc hid
-  unfold pendingCh at hpos ⊢
-  rw [List.countP_set hlt, hg]
-  simp only [hid, Option.isNone_none, if_true, Option.isNone_some, Bool.false_eq_true, if_false]
-  omega
-
 /-- registering the picked id for a channel that waited for one -/
-theorem WF.assign {e : Ep} (h : WF U n e) {i s : Nat} {c : Chan} (hc : e.chans[i]? = some c) (hid : c.id = none)
+theorem WF.assign {e : Ep} (h : WF U e) {i s : Nat} {c : Chan} (hc : e.chans[i]? = some c) (hid : c.id = none)
     (hnew : dictGet e.dataChannels s = none) (hs : s < 65536) :
-    WF U n { e with dataChannels := e.dataChannels ++ [(s, i)], chans := e.chans.set i { c with id := some s } } := by
+    WF U { e with dataChannels := e.dataChannels ++ [(s, i)], chans := e.chans.set i { c with id := some s } } := by
   have hlt : i < e.chans.length := by
     rcases Nat.lt_or_ge i e.chans.length with h' | h'
     · exact h'
     · rw [List.getElem?_eq_none h'] at hc; cases hc
-  have hpa := pendingCh_assign hc hid s
-  refine ⟨h.net, ⟨?_, ?_, ?_, ?_, h.ch.qPpid, ?_, h.ch.rcq⟩, h.tx, h.rx, h.rcReq, h.rcResp, h.sack, ⟨?_, ?_⟩, h.ids, h.cap, h.tm1, h.tm2, h.tasks, h.rcr⟩
+  refine ⟨h.net, ⟨?_, ?_, ?_, ?_, h.ch.qPpid, ?_, h.ch.rcq⟩, h.tx, h.rx, h.rcReq, h.rcResp, h.sack, h.ids, h.cap, h.tm1, h.tm2, h.tasks, h.rcr⟩
   · intro p hp
     rcases List.mem_append.mp hp with hp | hp
     · simpa using h.ch.dcIdx p hp
@@ -234,18 +215,10 @@ theorem WF.assign {e : Ep} (h : WF U n e) {i s : Nat} {c : Chan} (hc : e.chans[i
     rcases List.mem_or_eq_of_mem_set hd with hd | rfl
     · exact h.ch.sid d hd s' hs'
     · simp at hs'; omega
-  · have := h.room.cap
-    simp only [List.length_append, List.length_singleton]
-    omega
-  · have := h.room.room
-    simp only [List.length_append, List.length_singleton]
-    have : pendingCh (e.chans.set i { c with id := some s }) + (e.dataChannels.length + 1)
-        = pendingCh e.chans + e.dataChannels.length := by omega
-    rw [this]; assumption
 
 /-- `_data_channel_flush` loop: channel objects, stream table, queue and send side change; nothing else. -/
-theorem wp_flushLoop {A} (fuel : Nat) {Q : Unit → St → Prop} {e : Ep} {l : List Out} (h : WF U n e)
-    (hq : ∀ e' l', WF U n e' → DataFrame e e' → Q () (e', l')) : wp A (flushLoop fuel) Q (e, l) := by
+theorem wp_flushLoop {A} (fuel : Nat) {Q : Unit → St → Prop} {e : Ep} {l : List Out} (h : WF U e)
+    (hq : ∀ e' l', WF U e' → DataFrame e e' → Q () (e', l')) : wp A (flushLoop fuel) Q (e, l) := by
   induction fuel generalizing e l with
   | zero => simpa [flushLoop] using hq e l h (DataFrame.refl _)
   | succ fuel ih =>
@@ -260,12 +233,12 @@ theorem wp_flushLoop {A} (fuel : Nat) {Q : Unit → St → Prop} {e : Ep} {l : L
         have hmem : (i, ppid, data) ∈ e.dcQueue := by rw [hqeq]; simp
         have hi := h.ch.qIdx _ hmem
         obtain ⟨c, hc⟩ := getElem?_of_lt hi
-        have hw1 : WF U n { e with dcQueue := rest } := h.subQ (by intro x hx; rw [hqeq]; simp [hx])
+        have hw1 : WF U { e with dcQueue := rest } := h.subQ (by intro x hx; rw [hqeq]; simp [hx])
         rw [wp_chanGet (c := c) (by simpa using hc)]
         have hpp := h.ch.qPpid _ hmem
         have hpr0 := h.ch.qPR _ hmem c hc
         -- the part after the stream id is known, for any state `e1` reached with a well-formed frame
-        have hsend : ∀ (e1 : Ep) (l1 : List Out) (sid : Nat), WF U n e1 → DataFrame e e1 → sid < 65536 →
+        have hsend : ∀ (e1 : Ep) (l1 : List Out) (sid : Nat), WF U e1 → DataFrame e e1 → sid < 65536 →
             (ppid = WEBRTC_DCEP ∨ c.Reliable ∨ sid ∈ U) →
             wp A (do
               if ppid = WEBRTC_DCEP then
@@ -354,8 +327,8 @@ theorem wp_flushLoop {A} (fuel : Nat) {Q : Unit → St → Prop} {e : Ep} {l : L
             rw [hs0] at hnone; cases hnone
 
 /-- `_transmit_reconfig()`: only the stream reset bookkeeping changes. -/
-theorem wp_transmitReconfig {A} {Q : Unit → St → Prop} {e : Ep} {l : List Out} (h : WF U n e)
-    (hq : ∀ e' l', WF U n e' → DataFrame e e' → Q () (e', l')) :
+theorem wp_transmitReconfig {A} {Q : Unit → St → Prop} {e : Ep} {l : List Out} (h : WF U e)
+    (hq : ∀ e' l', WF U e' → DataFrame e e' → Q () (e', l')) :
     wp A transmitReconfig Q (e, l) := by
   unfold transmitReconfig
   simp only [wp_bind, wp_getE]
@@ -393,26 +366,26 @@ theorem wp_transmitReconfig {A} {Q : Unit → St → Prop} {e : Ep} {l : List Ou
         · assumption
         · cases this
       simp only [hser, wp_liftO_ok]
-      have hw1 : WF U n { e with reconfigQueue := e.reconfigQueue.filter fun x => !streams.contains x
-                                 reconfigRequest := some (e.reconfigRequestSeq, e.reconfigResponseSeq,
-                                   tsn_minus_one e.tx.localTsn, streams)
-                                 reconfigRequestSeq := tsn_plus_one e.reconfigRequestSeq } :=
+      have hw1 : WF U { e with reconfigQueue := e.reconfigQueue.filter fun x => !streams.contains x
+                               reconfigRequest := some (e.reconfigRequestSeq, e.reconfigResponseSeq,
+                                 tsn_minus_one e.tx.localTsn, streams)
+                               reconfigRequestSeq := tsn_plus_one e.reconfigRequestSeq } :=
         ⟨h.net, ⟨h.ch.dcIdx, h.ch.dcKeys, h.ch.qIdx, h.ch.qPR, h.ch.qPpid, h.ch.sid,
           fun s hs => h.ch.rcq s (List.mem_filter.mp hs).1⟩, h.tx, h.rx, tsn_plus_one_range _, h.rcResp, h.sack,
-          h.room, h.ids, h.cap, h.tm1, h.tm2, h.tasks, (fun p hp => by cases hp; exact hrc)⟩
+          h.ids, h.cap, h.tm1, h.tm2, h.tasks, (fun p hp => by cases hp; exact hrc)⟩
       refine wp_sendChunk hw1 (reconfigChunk_inRange (by decide) ?_) ?_
       · simp only [RcParam.bytes, List.length_append, length_u32be, length_u16sBytes]
         omega
       · intro d
         refine wp_rcStart ?_
         intro l'
-        exact hq _ _ ⟨hw1.net, hw1.ch, hw1.tx, hw1.rx, hw1.rcReq, hw1.rcResp, hw1.sack, hw1.room, hw1.ids, hw1.cap,
+        exact hq _ _ ⟨hw1.net, hw1.ch, hw1.tx, hw1.rx, hw1.rcReq, hw1.rcResp, hw1.sack, hw1.ids, hw1.cap,
           hw1.tm1, hw1.tm2, hw1.tasks, hw1.rcr⟩ ⟨_, _, _, _, _, _, _, _, rfl, Nat.le_refl _⟩
   · simp only [wp_pure]
     exact hq e l h (DataFrame.refl _)
 
-theorem wp_flush {A} {Q : Unit → St → Prop} {e : Ep} {l : List Out} (h : WF U n e)
-    (hq : ∀ e' l', WF U n e' → DataFrame e e' → Q () (e', l')) : wp A flush Q (e, l) := by
+theorem wp_flush {A} {Q : Unit → St → Prop} {e : Ep} {l : List Out} (h : WF U e)
+    (hq : ∀ e' l', WF U e' → DataFrame e e' → Q () (e', l')) : wp A flush Q (e, l) := by
   unfold flush
   simp only [wp_bind, wp_getE]
   split
